@@ -128,6 +128,10 @@ def parseScript (toks : List String) : (Nat × Nat) × List XOp :=
     | ["daofao", h] => (acc.1, acc.2 ++ [.aofAppendOpenFail ((Hex.decode h).getD [])])
     | ["daofcr"] => (acc.1, acc.2 ++ [.aofCloseRmFail])
     | ["drdbcr"] => (acc.1, acc.2 ++ [.rdbCloseRmFail])
+    -- the COMMIT of a completely received snapshot fails (closeRdb): at the fsync (`s`) or the close
+    -- (`c`: fsync succeeded) — no rename is attempted — with the temporary file removed (`s`, `c`) or not removable (`S`), at the rename
+    -- with the temporary file removed (`r`) or not (`R`: immutable directory)
+    | ["drdbaf", st, h] => (acc.1, acc.2 ++ [.rdbCommitFail ((Hex.decode h).getD []) (st == "r" || st == "R") (st == "s" || st == "c" || st == "r")])
     | ["dgcr"] => (acc.1, acc.2 ++ [.gcRmFail [] true])
     | ["dgcp", ls] => (acc.1, acc.2 ++ [.gcRmFail ((ls.splitOn ",").filterMap String.toNat?) false])
     | _ => acc) ((0, 0), [])
@@ -301,6 +305,25 @@ def xopOf (g : List String) : Option XOp :=
   | ["daofcf", k] => some (.aofCloseHdrFail k.toNat!)
   | _ => none
 
+/-- a stream writer still open when an id-level operation ends it (`old.Close()` / the reset after
+    the directory-level syscalls): the late close's line, its effect on the base directory, and
+    whether the live segment's file has its header where the close finds it (hypothesis of
+    `open_writer_switch_crash_true`) -/
+def lateClose (s : RS) (root1 : Root) (tgt : Option String) (oldDir : String) : Root × List String × Bool :=
+  match s.x.d.live with
+  | none => (root1, [], true)
+  | some g =>
+    let nm := nameStr (aofName g.left)
+    match tgt with
+    | some id =>
+      let hdrOk := g.data.isEmpty || (match (root1.get id).bind (fun fs => fs.get (aofName g.left)) with
+        | some c => decide (headerSize ≤ c.length)
+        | none => true)
+      (lateCloseRoot root1 (some id) g 16,
+       [if g.data.isEmpty then s!"remove {id}/{nm}" else s!"pwrite {id}/{nm} @0 {Hex.encode (closedHeader g.data)}"],
+       hdrOk)
+    | none => (root1, if g.data.isEmpty then [s!"fail remove {oldDir}/{nm}"] else [], true)
+
 def rsStep (s : RS) (g : List String) : RS × List String :=
   match g with
   | ["dnew", a, b] =>
@@ -309,7 +332,15 @@ def rsStep (s : RS) (g : List String) : RS × List String :=
   | ["dsetrun", id] =>
     let root0 := s.sync
     let sys := setRunIdSys root0 s.cur id
-    (s.enter (root0.applyAllSys sys) (setRunIdCur s.cur id), sys.map sysStr)
+    let cur' := setRunIdCur s.cur id
+    if cur' == s.cur then (s.enter (root0.applyAllSys sys) cur', sys.map sysStr)
+    else
+      -- the id changes: a writer still open is closed AFTER the directory-level syscalls
+      let tgt := match s.x.d.live with
+        | some gl => lateCloseTarget root0 s.cur id gl
+        | none => none
+      let (root2, late, ok) := lateClose s (root0.applyAllSys sys) tgt s.cur
+      ({ s with wf := s.wf && ok }.enter root2 cur', sys.map sysStr ++ late)
   | ["dverify", ids] =>
     let root0 := s.sync
     let (sys, root1, cur', chosen) := verifyRunId root0 s.cur (ids.splitOn ",")
@@ -320,8 +351,11 @@ def rsStep (s : RS) (g : List String) : RS × List String :=
     if realId id && root0.has id then
       let order := sortNames (((root0.get id).getD []).map (·.1))
       let sys := delRunIdSys root0 id order
-      -- `DelRunId`: the index is reset, there is no current id any more
-      ({ s with root := root0.applyAllSys sys, cur := "", x := XDisk.init s.l s.m }, sys.map sysStr)
+      -- `DelRunId`: the index is reset, there is no current id any more; a writer still open is closed by
+      -- the reset AFTER the RemoveAll (its own directory gone: no effect; another id's: in its directory)
+      let tgt := if id == s.cur || s.cur == "" then none else some s.cur
+      let (root2, late, ok) := lateClose s (root0.applyAllSys sys) tgt s.cur
+      ({ s with root := root2, cur := "", x := XDisk.init s.l s.m, wf := s.wf && ok }, sys.map sysStr ++ late)
     else (s, [])
   | _ =>
     match xopOf g with
